@@ -530,6 +530,14 @@ fn cases(tier: Tier) -> Vec<SVal> {
         let entries: Vec<(SVal, SVal)> = (0..n).map(|i| (SVal::Str(format!("k{:02}", (i * 7) % n)), SVal::U16(i as u16))).collect();
         v.push(SVal::Map(entries.clone()));
         v.push(SVal::CollectMap(entries));
+        // repeated keys in scrambled order: the entry written last wins (as in serde_json)
+        for m in [n, 33, 48, 100] {
+            let keys = m / 2 + 1;
+            let rep: Vec<(SVal, SVal)> = (0..m).map(|i| (SVal::Str(format!("k{:03}", (i * 37 + 11) % keys)), SVal::U32(i as u32))).collect();
+            v.push(SVal::Map(rep.clone()));
+            v.push(SVal::CollectMap(rep.clone()));
+            v.push(SVal::Struct(vec![("outer", SVal::Map(rep))]));
+        }
         for bad in [0, n / 2, n - 1] {
             let mut it = items.clone();
             it[bad] = SVal::Fail;
@@ -701,6 +709,24 @@ pub fn run(tier: Tier) -> i32 {
     rep.absorb(acc);
     let mut acc = Acc::new();
     derived(&mut acc);
+    // state that builds up: thousands of failing serializations (nested containers left open by
+    // the failure) must not affect a later well-formed value
+    {
+        let bad: Vec<SVal> = vec![
+            SVal::Seq(vec![SVal::Struct(vec![("a", SVal::Map(vec![(SVal::I8(1), SVal::I8(2))]))])]),
+            SVal::TupleVariant("TV", vec![SVal::StructVariant("SV", vec![("a", SVal::CollectSeq(vec![SVal::Fail]))])]),
+            SVal::CollectMap(vec![(SVal::Str("k".into()), SVal::Tuple(vec![SVal::U128(u128::MAX)]))]),
+        ];
+        let good = SVal::Struct(vec![("a", SVal::Seq(vec![SVal::Map(vec![(SVal::Str("k".into()), SVal::TupleVariant("TV", vec![SVal::I8(1)]))])]))]);
+        let rounds = tier.pick(3_000, 50_000);
+        for b in &bad {
+            for _ in 0..rounds {
+                let _ = catch(|| b.serialize(ValueSerializer).map(|_| ()));
+            }
+            acc.count("failing_serializations_before_a_good_one", rounds as u64);
+            check(&good, &mut acc);
+        }
+    }
     rep.absorb(acc);
     rep.states = cs.len() as u64;
     rep.transitions = rep.acc.get("executions") * 2;
